@@ -243,6 +243,9 @@ class Fold:
         ast.fix_missing_locations(mod)
         g = dict(fn.__globals__)
         g['__pvx'] = sym
+        for name, val in list(g.items()):      # constant integer tables (table-driven CRC): readable with a symbolic index
+            if isinstance(val, (list, tuple)) and 16 <= len(val) <= 1024 and all(isinstance(x, int) and not isinstance(x, bool) for x in val):
+                g[name] = sym.IntTable(val)
         try:
             exec(compile(mod, f"<pvx fold {fn.__qualname__}>", "exec"), g)
         except Exception as e:  # pragma: no cover
